@@ -18,6 +18,9 @@ Oracle (DESIGN §C17; model = the generator's own edge list, never `Job._depende
     executed set = all - skipped, every job at most once;
   * the execution log respects dependency order (and a consumer really reads its producer's file);
   * run() raises iff some executed job failed.
+
+Histories (second and third phase): the same clauses for a Batch object that is built, run, edited and run again
+(dry runs, failed runs, clean runs, rejected runs in between) - see the comment above gen_history.
 """
 import contextlib
 import io
@@ -38,12 +41,27 @@ RULE = (
     'as one random linear extension of the only constraints the DSL imposes (create before use, producer command before '
     'consumer command); random always_run flags and failing sets. A case is non-trivial when it has >= 2 jobs and >= 1 '
     'edge; distinct by (edge list with kinds, always_run vector, failing vector, creation order). quick 150 pipelines, '
-    'thorough 6 shards x 800.'
+    'thorough 6 shards x 800. '
+    'HISTORIES (phases history / history_plan): one Batch object is built in 2..4 sittings, each closed by run() '
+    '(a quarter dry runs): sitting 1 is an acyclic pipeline as above (60 %: one dependency forced to fail so that its '
+    'dependents stay unsubmitted), every later sitting adds 0..3 jobs and edges new->old, old->new, new->new, old->old '
+    'along a hidden order (40 % of the real-backend re-runs get the motif new failing job <- new ordinary job) and, for '
+    'about half of the histories, closes a cycle: an ancestor made to depend on one of its (transitive) dependents '
+    '(preferring jobs the first run skipped), self-loop on an old job, 2-cycle of old jobs, old job <-> new job, ring of '
+    'new jobs only; cycle-closing edges are explicit, resource-induced or both; a rejected pipeline is run again (with or '
+    'without further additions). Real LocalBackend (bash subprocesses; quick 60, thorough 6 x 300) and a recording '
+    'backend with ServiceBackend\'s submission bookkeeping (a dry run leaves jobs unsubmitted; quick 300, thorough 6 x 1600). '
+    'A history is distinct by (backend, per sitting: dry flag, new jobs, added edges with kinds, creation order; '
+    'always_run and failing vectors).'
 )
 ASSUMPTIONS = [
     '/bin/bash and /bin/sh execute `echo >> file`, `read < file`, `exit N` faithfully; appends of < 100 bytes to the shared log by sequential subprocesses are ordered',
     'the generator\'s own edge list (what it asked the DSL for) is the dependency relation of the property',
     'Job._job_id is the job number the property speaks about',
+    'histories: the recording backend (15 lines, subclass of the real hailtop.batch.backend.Backend) mirrors ServiceBackend\'s use of '
+    'Batch._unsubmitted_jobs / Job._submitted; with it only the Batch-side clauses (numbering, cycle rejection, hand-over order) are decided',
+    'histories: what a later run owes to jobs whose only bad dependency failed in an earlier run, to jobs that sat through a LocalBackend dry run, '
+    'to edges added after the dependent executed and to already executed jobs is read as unspecified (counted, never a verdict)',
 ]
 TRUSTED_BASE = ['bash', 'the monitor\'s least-fixpoint skip model (20 lines)']
 SHARDS = {'quick': 1, 'thorough': 6}  # fork/exec-bound: 16 concurrent shards cost 3x the CPU of 6 for the same 4800 pipelines in this sandbox
@@ -76,6 +94,32 @@ def FLOORS(tier):
         'resource_reads_observed': 60 * k,
         'runs_raised': 30 * k,
         'runs_clean': 10 * k,
+        # run / edit / re-run histories on one Batch object (quick: 60 LocalBackend + 300 recording-backend histories;
+        # about half of the minimum over seeds 0..4)
+        'histories_local': 30 * k,
+        'histories_plan': 150 * k,
+        'rerun_runs_local': 40 * k,
+        'rerun_runs_plan': 240 * k,
+        'rerun_cyclic_rejected_before_any_marker': 140 * k,
+        'rerun_cycle_through_numbered_jobs_local': 12 * k,
+        'rerun_cycle_through_numbered_jobs_plan': 110 * k,
+        'rerun_cycle_of_new_jobs_only': 10 * k,
+        'rerun_cycle_through_executed_jobs': 80 * k,
+        'rerun_cycle_through_skipped_jobs': 5 * k,
+        'rerun_cycle_after_dry': 60 * k,
+        'rerun_cycle_after_failed': 10 * k,
+        'rerun_cycle_after_clean': 85 * k,
+        'rerun_cycle_after_rejected': 25 * k,
+        'rerun_cycle_closed_by_resource_edge': 55 * k,
+        'rerun_dag_local': 22 * k,
+        'rerun_dag_plan': 115 * k,
+        'rerun_numbering_edges_checked': 1200 * k,
+        'rerun_numbered_job_depends_on_new_job': 160 * k,
+        'rerun_execution_edges_checked': 160 * k,
+        'rerun_jobs_executed': 200 * k,
+        'rerun_jobs_skipped': 17 * k,
+        'rerun_previously_skipped_job_executed': 12 * k,
+        'rerun_new_job_executed': 95 * k,
     }
 
 
@@ -243,6 +287,38 @@ def model_outcome(case):
 # ------------------------------------------------------------------------------------------
 
 
+def apply_op(b, jobs, case, qlog, name, j, arg):
+    """one DSL call of a generated pipeline (`case` supplies uses_group / fails per job)"""
+    if name == 'create':
+        jobs[j] = b.new_job(name=f'job{j}' if j % 2 else None)
+    elif name == 'always_run':
+        jobs[j].always_run()
+    elif name == 'depends_on':
+        jobs[j].depends_on(jobs[arg])
+    elif name == 'produce':
+        job = jobs[j]
+        cmd = f'echo "RUN {j}" >> {qlog}\necho {j} > {job.out}'
+        if case['uses_group'][j]:
+            job.declare_resource_group(grp={'a': '{root}.a', 'b': '{root}.b'})
+            cmd += f'\necho {j} > {job.grp.a}\necho {j} > {job.grp}.b'
+        job.command(cmd)
+    elif name == 'consume':
+        d, kind = arg
+        src = jobs[d]
+        if kind == 'group':
+            ref = f'{src.grp}.b'
+        elif kind == 'group_member':
+            ref = f'{src.grp.a}'
+        else:
+            ref = f'{src.out}'
+        # `read` is a builtin: no extra fork/exec per consumed resource
+        jobs[j].command(f'X=; {{ read -r X < {ref}; }} 2>/dev/null; echo "READ {j} {d} $X" >> {qlog}')
+    elif name == 'exit':
+        jobs[j].command(f'exit {1 if case["fails"][j] else 0}')
+    else:
+        raise AssertionError(name)
+
+
 def execute(hb, case):
     from hailtop.batch.exceptions import BatchException
 
@@ -261,34 +337,7 @@ def execute(hb, case):
             warnings.simplefilter('ignore')
             try:
                 for name, j, arg in case['ops']:
-                    if name == 'create':
-                        jobs[j] = b.new_job(name=f'job{j}' if j % 2 else None)
-                    elif name == 'always_run':
-                        jobs[j].always_run()
-                    elif name == 'depends_on':
-                        jobs[j].depends_on(jobs[arg])
-                    elif name == 'produce':
-                        job = jobs[j]
-                        cmd = f'echo "RUN {j}" >> {qlog}\necho {j} > {job.out}'
-                        if case['uses_group'][j]:
-                            job.declare_resource_group(grp={'a': '{root}.a', 'b': '{root}.b'})
-                            cmd += f'\necho {j} > {job.grp.a}\necho {j} > {job.grp}.b'
-                        job.command(cmd)
-                    elif name == 'consume':
-                        d, kind = arg
-                        src = jobs[d]
-                        if kind == 'group':
-                            ref = f'{src.grp}.b'
-                        elif kind == 'group_member':
-                            ref = f'{src.grp.a}'
-                        else:
-                            ref = f'{src.out}'
-                        # `read` is a builtin: no extra fork/exec per consumed resource
-                        jobs[j].command(f'X=; read -r X < {ref} 2>/dev/null; echo "READ {j} {d} $X" >> {qlog}')
-                    elif name == 'exit':
-                        jobs[j].command(f'exit {1 if case["fails"][j] else 0}')
-                    else:
-                        raise AssertionError(name)
+                    apply_op(b, jobs, case, qlog, name, j, arg)
             except Exception as e:  # the DSL refused to build the pipeline: not something the generator intends
                 obs['build_error'] = repr(e)
                 return obs
@@ -455,6 +504,528 @@ def check(ctx, case, obs):
     return ('dag', tuple(runs), obs['exception_type'])
 
 
+# ------------------------------------------------------------------------------------------
+# run / edit / re-run histories on ONE Batch object
+#
+# "For every pipeline built with the Batch DSL": the pipeline that a run() call sees may have been built in several
+# sittings, with earlier run() calls (dry runs, failed runs, clean runs, rejected runs) in between.  Job numbers,
+# `_submitted` flags and the order of `Batch._jobs` are persistent per-job / per-batch state, so every clause that is
+# decided inside `Batch._async_run` / `LocalBackend._async_run` is exercised again on state that an earlier run left.
+#
+# What the oracle demands of a later run (and nothing more):
+#   * ordering clause: after every accepted run() all job numbers are a permutation of 1..n and a topological order
+#     of ALL edges requested so far; jobs executed in the same run respect the edges among them;
+#   * cycle clause: whenever the edges requested so far contain a cycle, run() raises and executes nothing - no matter
+#     what earlier runs did to the jobs on the cycle;
+#   * skip clause, decided locally against the observed outcome of the direct dependencies in THIS run:
+#     an always-run job that is due runs; a due non-always-run job with a dependency that failed or was skipped in this
+#     run does not run; a due job none of whose dependencies failed (now or in an earlier run) or was skipped runs.
+#     Left open (counted, never a verdict): a job whose only bad dependency failed in an EARLIER run (the tree runs it;
+#     the property does not say), jobs that existed at an earlier LocalBackend dry run (the tree marks them submitted),
+#     an edge added after its dependent had already executed, re-execution of an already executed job;
+#   * run() raises iff a job executed in this run failed.
+# ------------------------------------------------------------------------------------------
+
+HIST_EDGE_KINDS = ['explicit', 'explicit', 'resource', 'resource', 'both']
+
+
+def _descendants(deps, n):
+    """desc[a] = jobs that (transitively) depend on a"""
+    children = {j: set() for j in range(n)}
+    for j, ds in deps.items():
+        for d in ds:
+            children[d].add(j)
+    desc = {}
+    for a in range(n):
+        out, stack = set(), [a]
+        while stack:
+            x = stack.pop()
+            for c in children[x]:
+                if c not in out:
+                    out.add(c)
+                    stack.append(c)
+        desc[a] = out
+    return desc
+
+
+def gen_history(rng, plan):
+    """a first sitting (an acyclic gen_case pipeline) followed by 1..2 edit sittings, each closed by run()"""
+    while True:
+        base = gen_case(rng)
+        if not base['cyclic'] and base['n'] >= 2:
+            break
+    n = base['n']
+    edges = {(j, d): k for j, d, k in base['edges']}
+    always = list(base['always'])
+    fails = list(base['fails'])
+    uses_group = list(base['uses_group'])
+    if plan:
+        fails = [False] * n  # the recording backend executes nothing
+    elif edges and rng.random() < 0.6:
+        # make sure something is left over for the next run: a failing job with a non-always-run dependent
+        j, d = rng.choice(sorted(edges))
+        fails[d] = True
+        always[j] = False
+    deps0 = {j: set() for j in range(n)}
+    for j, d in edges:
+        deps0[j].add(d)
+    hidden = topo_order(deps0)  # dependencies first; kept a valid order of the acyclic part of the model
+    leftover = set()
+    if not plan:
+        sk, _, _ = model_outcome({'n': n, 'edges': base['edges'], 'always': always, 'fails': fails})
+        leftover = {j for j in range(n) if sk[j]}
+    first_ops = [op for op in base['ops'] if not (op[0] == 'always_run' and not always[op[1]])]
+    p_dry = 0.4 if plan else 0.25
+    stages = [{
+        'new_jobs': list(range(n)), 'edges_added': [list(e) for e in base['edges']], 'ops': first_ops,
+        'dry': rng.random() < p_dry, 'mode': 'dag', 'cycle_shape': None,
+    }]
+    n_stages = rng.choice([2, 2, 2, 3, 3, 4] if plan else [2, 2, 2, 3, 3])
+    closed = False
+    for s in range(1, n_stages):
+        last = s == n_stages - 1
+        old_n = n
+        k_new = rng.choice([0, 0, 1, 1, 2, 3])
+        mode = 'cycle' if (not closed and rng.random() < ((0.6 if last else 0.25) if plan else (0.45 if last else 0.15))) else 'dag'
+        shape = None
+        # (real backend) motif for the skip clause on a re-run: new failing job <- new ordinary job
+        motif = (not plan) and mode == 'dag' and rng.random() < 0.4
+        if motif:
+            k_new = max(k_new, 2)
+        if mode == 'cycle':
+            shape = rng.choice(['old_back', 'old_back', 'old_back', 'old_self', 'old_two', 'via_new', 'via_new', 'new_only'])
+            if shape in ('via_new', 'new_only'):
+                k_new = max(k_new, 1)
+        new = list(range(n, n + k_new))
+        p_always = rng.choice([0.0, 0.2, 0.5])
+        p_fail = 0.0 if plan else rng.choice([0.0, 0.25, 0.5, 0.7])
+        for x in new:
+            hidden.insert(rng.randint(0, len(hidden)), x)
+            always.append(rng.random() < p_always)
+            fails.append(rng.random() < p_fail)
+            uses_group.append(False)
+        n += k_new
+        added = {}
+
+        def kind_for(d):
+            ks = HIST_EDGE_KINDS + (['group', 'group_member'] if uses_group[d] else [])
+            return rng.choice(ks)
+
+        if not closed or rng.random() < 0.5:
+            # acyclic additions along the hidden order: new -> old, old -> new, new -> new, old -> old
+            rank = {j: k for k, j in enumerate(hidden)}
+            p_new = rng.choice([0.2, 0.35, 0.6])
+            p_old = rng.choice([0.0, 0.05, 0.15])
+            for j in range(n):
+                for d in range(n):
+                    if j == d or rank[d] > rank[j] or (j, d) in edges:
+                        continue
+                    p = p_new if (j >= old_n or d >= old_n) else p_old
+                    if rng.random() < p:
+                        added[(j, d)] = kind_for(d)
+        if motif:
+            rank = {j: k for k, j in enumerate(hidden)}
+            a, b2 = sorted(rng.sample(new, 2), key=rank.get)
+            added.setdefault((b2, a), rng.choice(HIST_EDGE_KINDS))
+            fails[a], always[a], always[b2] = True, True, False
+        if mode == 'cycle':
+            deps = {j: set() for j in range(n)}
+            for j, d in list(edges) + list(added):
+                deps[j].add(d)
+            desc = _descendants(deps, n)
+            old = list(range(old_n))
+
+            def ck():
+                return rng.choice(['explicit', 'explicit', 'resource', 'both'])
+
+            if shape == 'old_back':
+                pairs = sorted((a, d) for a in old for d in desc[a] if d < old_n)
+                left = [p for p in pairs if p[0] in leftover or p[1] in leftover]
+                if left and rng.random() < 0.6:
+                    pairs = left  # close the cycle through jobs that the first run skipped (they are still to be run)
+                if pairs:
+                    a, d = rng.choice(pairs)
+                    added[(a, d)] = ck()  # an ancestor is made to depend on one of its (transitive) dependents
+                else:
+                    shape = 'old_two'
+            if shape == 'old_two':
+                if old_n >= 2:
+                    a, b2 = rng.sample(old, 2)
+                    if (a, b2) not in edges:
+                        added[(a, b2)] = ck()
+                    if (b2, a) not in edges:
+                        added[(b2, a)] = ck()
+                else:
+                    shape = 'old_self'
+            if shape == 'old_self':
+                a = rng.choice(old)
+                added[(a, a)] = 'explicit'
+            if shape == 'via_new':
+                x = rng.choice(new)
+                a = rng.choice(old)
+                d = rng.choice(sorted(desc[a] | {a}))
+                added[(a, x)] = ck()  # old job depends on the new job ...
+                if d != x:
+                    added[(x, d)] = ck()  # ... which depends on the old job or on one of its dependents
+                else:
+                    added[(x, a)] = ck()
+            if shape == 'new_only':
+                k = rng.randint(1, len(new))
+                ring = rng.sample(new, k)
+                if k == 1:
+                    added[(ring[0], ring[0])] = 'explicit'
+                else:
+                    for i in range(k):
+                        added[(ring[i], ring[(i + 1) % k])] = ck()
+            closed = True
+        for e, k in added.items():
+            if e[0] == e[1]:
+                added[e] = 'explicit'  # a job cannot consume its own resource as an input
+        edges.update(added)
+
+        # the sitting's DSL calls, in one random linear extension of what the DSL requires
+        ops, after = [], {}
+
+        def add(op, before=()):
+            ops.append(op)
+            after[len(ops) - 1] = {i for i in before if i is not None}
+            return len(ops) - 1
+
+        create = {x: add(('create', x, None)) for x in new}
+        produce = {x: add(('produce', x, None), [create[x]]) for x in new}
+        for x in new:
+            if always[x]:
+                add(('always_run', x, None), [create[x]])
+        last_cmd = {x: [produce[x]] for x in new}
+        for (j, d), kind in sorted(added.items()):
+            if kind in ('explicit', 'both'):
+                add(('depends_on', j, d), [create.get(j), create.get(d)])
+            if kind != 'explicit':
+                i = add(('consume', j, (d, kind)), [produce.get(j), produce.get(d)])
+                if j in last_cmd:
+                    last_cmd[j].append(i)
+        for x in new:
+            add(('exit', x, None), last_cmd[x])
+        order, done, remaining = [], set(), set(range(len(ops)))
+        while remaining:
+            ready = sorted(i for i in remaining if after[i] <= done)
+            i = rng.choice(ready)
+            order.append(i)
+            done.add(i)
+            remaining.discard(i)
+        stages.append({
+            'new_jobs': new, 'edges_added': [[j, d, k] for (j, d), k in sorted(added.items())],
+            'ops': [list(ops[i]) for i in order], 'dry': rng.random() < p_dry, 'mode': mode, 'cycle_shape': shape,
+        })
+    return {'backend': 'plan' if plan else 'local', 'n': n, 'always': always, 'fails': fails, 'uses_group': uses_group,
+            'stages': stages}
+
+
+def make_plan_backend():
+    """A backend that executes nothing and has ServiceBackend's submission bookkeeping (backend.py: `unsubmitted_jobs =
+    batch._unsubmitted_jobs`, nothing is marked on a dry run, `job._submitted = True` for what was handed over): it
+    records the jobs in the order `Batch._async_run` hands them over.  Only the Batch-side clauses are decided with it."""
+    from hailtop.batch.backend import Backend
+
+    class PlanBackend(Backend):
+        def __init__(self):  # pylint: disable=super-init-not-called
+            self._closed = True
+            self.handed = []
+
+        @property
+        def _fs(self):
+            raise NotImplementedError
+
+        async def _async_close(self):
+            pass
+
+        def close(self):
+            pass
+
+        def __del__(self):
+            pass
+
+        async def _async_run(self, batch, dry_run, verbose, delete_scratch_on_exit, **backend_kwargs):
+            todo = list(batch._unsubmitted_jobs)
+            if dry_run:
+                return None
+            for j in todo:
+                self.handed.append(j)
+                j._submitted = True
+            return None
+
+    return PlanBackend()
+
+
+def execute_history(hb, hist):
+    from hailtop.batch.exceptions import BatchException
+
+    plan = hist['backend'] == 'plan'
+    scratch = tempfile.mkdtemp(prefix='vf-c17h-')
+    log = os.path.join(scratch, 'exec.log')
+    qlog = shlex.quote(log)
+    backend = None
+    obs = {'stages': []}
+    try:
+        backend = make_plan_backend() if plan else hb.LocalBackend(tmp_dir=scratch)
+        b = hb.Batch(backend=backend, name='c17h')
+        jobs = {}
+        consumed = 0
+        sink = io.StringIO()
+        with warnings.catch_warnings(), contextlib.redirect_stdout(sink):
+            warnings.simplefilter('ignore')
+            for stage in hist['stages']:
+                so = {'exception': None, 'exception_type': None, 'build_error': None, 'is_batch_exception': False}
+                obs['stages'].append(so)
+                try:
+                    for name, j, arg in stage['ops']:
+                        apply_op(b, jobs, hist, qlog, name, j, arg)
+                except Exception as e:
+                    so['build_error'] = repr(e)
+                    break
+                try:
+                    b.run(dry_run=stage['dry'])
+                except BaseException as e:  # noqa: BLE001
+                    if isinstance(e, KeyboardInterrupt):
+                        raise
+                    so['exception'] = repr(e)[:300]
+                    so['exception_type'] = type(e).__name__
+                    so['is_batch_exception'] = isinstance(e, BatchException)
+                so['ids'] = [jobs[j]._job_id for j in sorted(jobs)]
+                runs, reads = [], []
+                if plan:
+                    index = {id(job): j for j, job in jobs.items()}
+                    runs = [index[id(job)] for job in backend.handed[consumed:]]
+                    consumed = len(backend.handed)
+                else:
+                    try:
+                        with open(log) as f:
+                            lines = f.readlines()
+                    except FileNotFoundError:
+                        lines = []
+                    for line in lines[consumed:]:
+                        parts = line.rstrip('\n').split(' ')
+                        if parts[0] == 'RUN':
+                            runs.append(int(parts[1]))
+                        elif parts[0] == 'READ':
+                            reads.append((int(parts[1]), int(parts[2]), ' '.join(parts[3:])))
+                    consumed = len(lines)
+                so['runs'] = runs
+                so['reads'] = reads
+                sink.seek(0)
+                sink.truncate()
+        return obs
+    finally:
+        if backend is not None:
+            try:
+                backend.close()
+            except Exception:
+                pass
+        shutil.rmtree(scratch, ignore_errors=True)
+
+
+def _on_cycle(deps, n):
+    """jobs that lie on some dependency cycle"""
+    desc = _descendants(deps, n)
+    return {j for j in range(n) if j in desc[j]}
+
+
+def check_history(ctx, hist, obs):
+    plan = hist['backend'] == 'plan'
+    bk = hist['backend']
+    always, fails = hist['always'], hist['fails']
+    w = {'history': hist, 'observed': obs}
+    ctx.count('histories_' + bk)
+    n = 0
+    edges = {}
+    done = set()  # executed in an earlier (real) run
+    limbo = set()  # existed at an earlier LocalBackend dry run and not executed since: whether they are due is left open
+    skipped_before = set()
+    numbered = set()  # jobs that an earlier run() call has seen
+    earlier = []  # what the earlier runs were: 'dry' / 'failed' / 'clean' / 'rejected'
+    outcome = []
+    for s, stage in enumerate(hist['stages']):
+        if s >= len(obs['stages']):
+            break
+        so = obs['stages'][s]
+        n += len(stage['new_jobs'])
+        for j, d, k in stage['edges_added']:
+            edges[(j, d)] = k
+        if so.get('build_error'):
+            ctx.violation('build/dsl-refused-generated-pipeline', f"sitting {s}: building the pipeline raised {so['build_error']}", w)
+            return tuple(outcome) + ('build-error',)
+        deps = {j: set() for j in range(n)}
+        for j, d in edges:
+            deps[j].add(d)
+        cyclic = topo_order(deps) is None
+        rerun = s > 0
+        tag = 'rerun-' if rerun else ''
+        ctx.count('history_runs')
+        if rerun:
+            ctx.count('rerun_runs')
+            ctx.count('rerun_runs_' + bk)
+            ctx.seen('rerun_after', '+'.join(earlier))
+        w['sitting'] = s
+
+        if cyclic:
+            ctx.count('history_runs_cyclic')
+            cyc = _on_cycle(deps, n)
+            if rerun:
+                ctx.count('rerun_cyclic')
+                ctx.count('rerun_cyclic_' + bk)
+                ctx.seen('rerun_cycle_shapes', f"{stage['cycle_shape']}/{stage['mode']}")
+                if cyc & numbered:
+                    ctx.count('rerun_cycle_through_numbered_jobs')
+                    ctx.count('rerun_cycle_through_numbered_jobs_' + bk)
+                    if cyc <= numbered:
+                        ctx.count('rerun_cycle_of_numbered_jobs_only')
+                else:
+                    ctx.count('rerun_cycle_of_new_jobs_only')
+                if cyc & done:
+                    ctx.count('rerun_cycle_through_executed_jobs')
+                if cyc & skipped_before:
+                    ctx.count('rerun_cycle_through_skipped_jobs')
+                for e in set(earlier):
+                    ctx.count('rerun_cycle_after_' + e)
+                if any(k in ('resource', 'both') for (j, d), k in edges.items() if j in cyc and d in cyc
+                       and [j, d, k] in stage['edges_added']):
+                    ctx.count('rerun_cycle_closed_by_resource_edge')
+            again = 'rejected' in earlier
+            if so['runs'] or so['reads']:
+                key = ('cycle/rejected-pipeline-ran-on-rerun' if again else
+                       'cycle/closed-after-earlier-run-jobs-ran' if rerun else 'cycle/jobs-ran-in-cyclic-pipeline')
+                ctx.violation(key, f"sitting {s} ({'dry ' if stage['dry'] else ''}run after {earlier}): the pipeline is cyclic (jobs on a cycle: {sorted(cyc)}) "
+                              f"but jobs {so['runs']} were executed (exception: {so['exception_type']})", w)
+            elif so['exception'] is None:
+                key = ('cycle/rejected-pipeline-accepted-on-rerun' if again else
+                       'cycle/closed-after-earlier-run-not-rejected' if rerun else 'cycle/not-rejected')
+                ctx.violation(key, f"sitting {s} ({'dry ' if stage['dry'] else ''}run after {earlier}): the pipeline is cyclic (jobs on a cycle: {sorted(cyc)}) "
+                              'but run() returned normally', w)
+            else:
+                ctx.count('history_cyclic_rejected_before_any_marker')
+                if rerun:
+                    ctx.count('rerun_cyclic_rejected_before_any_marker')
+                ctx.seen('cycle_rejection_exception', so['exception_type'])
+            numbered |= set(range(n))
+            earlier.append('rejected')
+            outcome.append(('cyclic', so['exception_type']))
+            continue
+
+        # ---- acyclic so far ----
+        if rerun:
+            ctx.count('rerun_dag')
+            ctx.count('rerun_dag_' + bk)
+        if stage['dry']:
+            ctx.count('history_dry_runs')
+        if so.get('is_batch_exception'):
+            ctx.violation(f'cycle/{tag}dag-rejected', f"sitting {s}: acyclic pipeline rejected: {so['exception']}", w)
+            return tuple(outcome) + ('dag-rejected',)
+        if so['exception'] is not None and so['exception_type'] != 'CalledProcessError':
+            ctx.violation('run/unexpected-exception', f"sitting {s}: run() raised {so['exception']}", w)
+            return tuple(outcome) + ('unexpected-exception',)
+
+        # numbering of ALL jobs against ALL edges requested so far
+        ids = so['ids']
+        if sorted(x for x in ids if x is not None) != list(range(1, n + 1)):
+            ctx.violation(f'order/{tag}numbering-not-a-permutation', f'sitting {s}: job numbers {ids} are not a permutation of 1..{n}', w)
+        else:
+            for (j, d), kind in sorted(edges.items()):
+                if rerun:
+                    ctx.count('rerun_numbering_edges_checked')
+                    if d >= min(stage['new_jobs'], default=n) > j:
+                        ctx.count('rerun_numbered_job_depends_on_new_job')
+                else:
+                    ctx.count('history_first_numbering_edges_checked')
+                if not ids[d] < ids[j]:
+                    key = (f'order/{tag}numbering-ignores-resource-dependency' if kind in ('resource', 'group', 'group_member')
+                           else f'order/{tag}numbering-not-topological')
+                    ctx.violation(key, f'sitting {s}: job {j} (number {ids[j]}) depends on job {d} (number {ids[d]}) via {kind}', w)
+
+        # executed set of this run
+        runs = so['runs']
+        pos = {}
+        for k, j in enumerate(runs):
+            if j in pos:
+                ctx.violation('exec/job-ran-twice', f'sitting {s}: job {j} executed more than once in one run: {runs}', w)
+            pos.setdefault(j, k)
+        if stage['dry']:
+            if runs:
+                ctx.count('dry_run_executed_jobs')  # not a clause of C17; counted only
+        else:
+            for j in range(n):
+                ran = j in pos
+                if j in done:
+                    if ran:
+                        ctx.count('rerun_executed_job_ran_again')  # left open
+                    continue
+                now_failed = sorted(p for p in deps[j] if p in pos and fails[p])
+                now_skipped = sorted(p for p in deps[j] if p not in done and p not in limbo and p not in pos)
+                open_parents = sorted(p for p in deps[j] if p not in pos and ((p in done and fails[p]) or p in limbo))
+                if j in limbo:
+                    ctx.count('rerun_jobs_after_dry_run_' + ('ran' if ran else 'not_run'))
+                    if ran and not always[j] and now_failed:
+                        ctx.violation(f'skip/{tag}child-of-failed-job-ran', f'sitting {s}: job {j} ran although its dependencies {now_failed} failed in this run', w)
+                    continue
+                # j is due
+                if rerun:
+                    ctx.count('rerun_jobs_executed' if ran else 'rerun_jobs_skipped')
+                    if ran and j in skipped_before:
+                        ctx.count('rerun_previously_skipped_job_executed')
+                    if ran and j in stage['new_jobs']:
+                        ctx.count('rerun_new_job_executed')
+                if always[j]:
+                    if not ran:
+                        ctx.violation(f'skip/{tag}always-run-job-skipped', f'sitting {s}: always-run job {j} did not run', w)
+                elif now_failed or now_skipped:
+                    if ran:
+                        kinds = {edges[(j, p)] for p in now_failed + now_skipped}
+                        key = (f'skip/{tag}child-of-skipped-job-ran' if not now_failed else
+                               f'skip/{tag}consumer-of-failed-producer-ran' if kinds <= {'resource', 'group', 'group_member'} else
+                               f'skip/{tag}child-of-failed-job-ran')
+                        ctx.violation(key, f'sitting {s}: job {j} ran although dependencies {now_failed} failed and {now_skipped} were skipped in this run and it is not always_run', w)
+                elif open_parents:
+                    # the only bad dependencies failed in an earlier run / sat through a dry run: the property is silent
+                    ctx.count('rerun_open_child_of_earlier_failure_' + ('ran' if ran else 'not_run'))
+                elif not ran:
+                    ctx.violation(f'skip/{tag}unaffected-job-skipped', f'sitting {s}: job {j} did not run although none of its dependencies {sorted(deps[j])} failed or was skipped', w)
+                if not ran:
+                    skipped_before.add(j)
+
+        # execution order inside this run
+        for (j, d), kind in sorted(edges.items()):
+            if j in pos and d in pos:
+                ctx.count('rerun_execution_edges_checked' if rerun else 'history_first_execution_edges_checked')
+                if not pos[d] < pos[j]:
+                    key = (f'order/{tag}consumer-ran-before-producer' if kind in ('resource', 'group', 'group_member')
+                           else f'order/{tag}execution-before-dependency')
+                    ctx.violation(key, f'sitting {s}: job {j} ran at position {pos[j]} before its dependency {d} (position {pos[d]}); log {runs}', w)
+            elif d in pos and j in done:
+                ctx.count('rerun_edge_added_after_dependent_ran')  # left open
+        for j, d, content in so['reads']:
+            if d in pos and j in pos and pos[d] < pos[j]:
+                ctx.count('history_resource_reads_observed')
+                if content != str(d):
+                    ctx.violation('order/consumer-did-not-see-producer-output', f'sitting {s}: job {j} read {content!r} from the resource of job {d}, which had already run', w)
+
+        # run() raises iff a job executed in this run failed
+        really_failed = sorted(j for j in pos if fails[j])
+        if so['exception'] is None:
+            if really_failed:
+                ctx.violation('raise/failure-swallowed', f'sitting {s}: jobs {really_failed} exited 1 but run() returned normally', w)
+        elif not really_failed:
+            ctx.violation('raise/exception-without-failure', f'sitting {s}: run() raised {so["exception"]} although no executed job failed', w)
+
+        done |= set(pos)
+        limbo -= set(pos)
+        if stage['dry'] and not plan:
+            limbo |= set(range(n)) - done
+        numbered |= set(range(n))
+        earlier.append('dry' if stage['dry'] else 'failed' if really_failed else 'clean')
+        outcome.append(('dry' if stage['dry'] else 'dag', tuple(runs), so['exception_type']))
+    w.pop('sitting', None)
+    return tuple(outcome)
+
+
 def run(ctx):
     import hailtop.batch as hb
 
@@ -475,6 +1046,21 @@ def run(ctx):
                tuple(j for name, j, _ in case['ops'] if name == 'create'))
         ctx.case(sample={'case': {k: v for k, v in case.items() if k != 'ops'}, 'observed': obs}, key=key,
                  nontrivial=case['n'] >= 2 and len(case['edges']) >= 1)
+
+    # run / edit / re-run histories on one Batch object: real LocalBackend (bash subprocesses) and the recording backend
+    for phase, plan, M in (('history', False, ctx.pick(60, 300)), ('history_plan', True, ctx.pick(300, 1600))):
+        for i, rng in ctx.cases(M, phase=phase):
+            hist = gen_history(rng, plan)
+            obs = execute_history(hb, hist)
+            gc.collect()
+            outcome = check_history(ctx, hist, obs)
+            ctx.seen('history_outcome_kinds', '>'.join(o[0] if isinstance(o, tuple) else str(o) for o in outcome))
+            key = (hist['backend'], tuple(hist['always']), tuple(hist['fails']),
+                   tuple((st['dry'], len(st['new_jobs']), tuple(map(tuple, st['edges_added'])),
+                          tuple(j for name, j, _ in st['ops'] if name == 'create')) for st in hist['stages']))
+            ctx.case(sample={'history': {k: ([{a: b for a, b in st.items() if a != 'ops'} for st in v] if k == 'stages' else v)
+                                         for k, v in hist.items()}, 'observed': obs},
+                     key=key, nontrivial=len(hist['stages']) >= 2)
 
 
 # ------------------------------------------------------------------------------------------
@@ -506,3 +1092,20 @@ def run(ctx):
 # Note: LocalBackend raises the first failing job's subprocess.CalledProcessError after all runnable jobs ran; the oracle
 # only demands "raises iff some executed job failed" and accepts any exception as the rejection of a cyclic pipeline
 # (the tree raises BatchException('cycle detected in dependency graph')).
+#
+# Histories (added after seeded change C17-agent4, which no single run() on a fresh Batch can show):
+#  S2 seed    batch.py  cycle test folded into the DFS as "seen but `_job_id is None`" (stale numbers of an earlier run()
+#             hide a cycle closed through already numbered jobs)            CAUGHT cycle/closed-after-earlier-run-not-rejected,
+#             cycle/closed-after-earlier-run-jobs-ran, cycle/rejected-pipeline-accepted-on-rerun, cycle/rejected-pipeline-ran-on-rerun
+#  B9 own     batch.py  `if j._job_id is None: j._job_id = i` (numbers of an earlier run are kept)
+#                                                                          CAUGHT order/rerun-numbering-not-a-permutation,
+#             order/rerun-numbering-not-topological, order/rerun-numbering-ignores-resource-dependency
+#  B10 own    batch.py  the cycle test skips jobs that are already submitted (`if j._submitted: continue`)
+#                                                                          CAUGHT the four cycle/...-rerun keys of S2
+#  S1 seed    C17-agent2 (only the first failing job cancels its children) still CAUGHT, now also skip/rerun-child-of-failed-job-ran
+# Unchanged tree with the history phases: silent for VERIF_SEED 0..4 quick and 0..2 thorough.
+# Observed on the unchanged tree and deliberately NOT a verdict (the property is silent about it; counters
+# rerun_open_child_of_earlier_failure_ran, rerun_jobs_after_dry_run_not_run): a later run() of a LocalBackend batch executes
+# the jobs whose dependency failed in an EARLIER run (the failed job is `_submitted`, so nothing cancels them, and the
+# earlier run's scratch directory with the producer's files is gone); LocalBackend marks every job `_submitted` on a
+# dry run, so `run(dry_run=True)` followed by `run()` executes nothing.
